@@ -304,7 +304,7 @@ def handlePositiveAckProcedures (env : Env) : SM Unit := do
         declareFault env ccPositiveAckLimit
       else
         modP fun p => { p with ackTimer := some (t.reset env.now), ackCounter := p.ackCounter + 1 }
-        let cks ← checksumCalculation p.fileSize
+        let cks ← checksumCalculation p.progress
         prepareEofPdu env cks
 
 /-- `_handle_waiting_for_ack` (source.py:730-753) -/
